@@ -141,6 +141,7 @@ fn validate_cases(b: &Base, r: Option<&LayoutRules>) -> Vec<Case> {
             if cells > 1 {
                 usages.push(("non-multiple", copies as i128 * cells as i128 + 1, false));
             }
+            usages.push(("minus-1-instance", -(cells as i128), false));
             for (tag, u, force_off) in usages {
                 let stop = bg as i128 + u;
                 if stop < 0 || (force_off && on) {
@@ -169,6 +170,9 @@ fn validate_cases(b: &Base, r: Option<&LayoutRules>) -> Vec<Case> {
                 usages.push(("non-multiple".into(), bt.cells as i128 + 1));
                 usages.push(("1 cell".into(), 1));
             }
+            // stop BELOW begin by a whole number of instances (a count taken over the integers sees -1, -2 instances)
+            usages.push(("minus 1 instance".into(), -(bt.cells as i128)));
+            usages.push(("minus 2 instances".into(), -2 * bt.cells as i128));
             for (tag, u) in usages {
                 let stop = bg as i128 + u;
                 if stop < 0 || stop >= (1i128 << 63) {
@@ -220,6 +224,20 @@ fn hash_cases(b: &Base) -> Vec<Case> {
         let c = p["main_page"][i].clone();
         p["main_page"].as_array_mut().unwrap().insert(i + 1, c);
         push(format!("duplicate cell {}", i), "cell-duplicate", p);
+    }
+    // two neighbouring cells moved together, and every cell from position i on moved (links between pairs)
+    for &i in &pos {
+        for (tag, upto) in [("pair", (i + 2).min(n)), ("suffix", n)] {
+            if i + 1 >= n || (tag == "suffix" && i == 0) {
+                continue;
+            }
+            let mut p = b.pi.clone();
+            for k in i..upto {
+                let a = get_u64(&p["main_page"][k]["address"]);
+                p["main_page"][k]["address"] = hexu(a + 1);
+            }
+            push(format!("cells {}..{} address+1 ({})", i, upto, tag), &format!("cell-address-{}-shift", tag), p);
+        }
     }
     // program region shifted by one address / output region moved by one address
     let initial_fp = get_u64(&b.pi["segments"][1]["begin_addr"]);
